@@ -51,6 +51,8 @@ IdxOK(i, n)   == PyIdx(i, n) >= 0 /\ PyIdx(i, n) < n
 Clamp(i, n)   == IF i < 0 THEN Max2(i + n, 0) ELSE Min2(i, n)
 PySlice(s, i, j) == LET a == Clamp(i, Len(s)) b == Clamp(j, Len(s)) IN
                     IF a < b THEN SubSeq(s, a + 1, b) ELSE <<>>
+SliceRepl(s, i, j, new) == LET a == Clamp(i, Len(s)) b == Max2(Clamp(j, Len(s)), Clamp(i, Len(s))) IN
+                           SubSeq(s, 1, a) \o new \o SubSeq(s, b + 1, Len(s))
 DelAt(s, p)   == SubSeq(s, 1, p - 1) \o SubSeq(s, p + 1, Len(s))      \* p 1-based
 
 \* ------------------------------------------------------------------ return values
@@ -237,6 +239,10 @@ HdApply(st, name, a) ==
                                ELSE [st |-> st, ret |-> IndexErr]
     [] name = "setitem_idx" -> IF IdxOK(a.idx, n) THEN [st |-> [st EXCEPT ![PyIdx(a.idx, n) + 1] = <<k, a.v>>], ret |-> RNone]
                                ELSE [st |-> st, ret |-> IndexErr]
+    \* del h[i:j] / h[i:j] = pairs: the list slice [i:j] (indices clamped, empty when j <= i) is removed /
+    \* replaced by the given lines
+    [] name = "delitem_slice" -> [st |-> SliceRepl(st, a.idx, a.idx2, <<>>), ret |-> RNone]
+    [] name = "setitem_slice" -> [st |-> SliceRepl(st, a.idx, a.idx2, Flatten(a.src)), ret |-> RNone]
     [] name = "pop" -> IF has THEN [st |-> HdDel(st, k), ret |-> RVal(vals[1])]
                        ELSE [st |-> st, ret |-> IF a.hasdef THEN RVal(a.v) ELSE KeyErr]
     [] name = "pop_idx" -> IF IdxOK(a.idx, n) THEN [st |-> DelAt(st, PyIdx(a.idx, n) + 1),
@@ -283,9 +289,14 @@ HsFind(st, x) == FirstIdx(st, LAMBDA y : Lower(y) = Lower(x))
 HsAdd(st, x)  == IF HsHas(st, x) THEN st ELSE Append(st, x)
 HsDel(st, x)  == SelectSeq(st, LAMBDA y : Lower(y) # Lower(x))
 HsFrom(xs)    == Fold(HsAdd, <<>>, xs)
-\* item assignment is only modelled when the result is still a set (the new item equals, up
-\* to case, no item at another index); the documentation is silent about the other case.
-HsAssignOK(st, i, x) == \A j \in 1..Len(st) : j # i => Lower(st[j]) # Lower(x)
+\* item assignment hs[i] = x with the full ordered-set meaning: position i holds x afterwards and x is
+\* held once - assigning the member's own name or a case variant of it replaces the spelling in place,
+\* assigning the name (or a case variant) of ANOTHER member keeps it at the assigned position and drops
+\* the other occurrence, a fresh name simply replaces.  p is the 1-based normalised position.
+HsAssignOK(st, i, x) == \A j \in 1..Len(st) : j # i => Lower(st[j]) # Lower(x)      \* no other member equals x
+HsAssign(st, p, x) == LET s2   == [st EXCEPT ![p] = x]
+                          keep == SelectSeq([j \in 1..Len(s2) |-> j], LAMBDA j : j = p \/ Lower(s2[j]) # Lower(x))
+                      IN [m \in 1..Len(keep) |-> s2[keep[m]]]
 
 HsApply(st, name, a) ==
   LET x == a.k  n == Len(st) IN
@@ -296,7 +307,7 @@ HsApply(st, name, a) ==
     [] name = "clear"   -> [st |-> <<>>, ret |-> RNone]
     [] name = "delitem_idx" -> IF IdxOK(a.idx, n) THEN [st |-> DelAt(st, PyIdx(a.idx, n) + 1), ret |-> RNone]
                                ELSE [st |-> st, ret |-> IndexErr]
-    [] name = "setitem_idx" -> IF IdxOK(a.idx, n) THEN [st |-> [st EXCEPT ![PyIdx(a.idx, n) + 1] = x], ret |-> RNone]
+    [] name = "setitem_idx" -> IF IdxOK(a.idx, n) THEN [st |-> HsAssign(st, PyIdx(a.idx, n) + 1, x), ret |-> RNone]
                                ELSE [st |-> st, ret |-> IndexErr]
     [] OTHER -> [st |-> st, ret |-> RExc("?unknown-op")]
 
@@ -350,7 +361,7 @@ EhRead(env, name, a) ==
     [] name = "get_int"         -> IF p = 0 THEN RNone ELSE TypedGet(<<env[p][2]>>, RNone)
     [] name = "get_int_default" -> IF p = 0 THEN RVal(a.v) ELSE TypedGet(<<env[p][2]>>, RVal(a.v))
     [] OTHER -> RExc("?unknown-read")
-HdMutators == {"set", "setitem", "add", "extend", "update", "ior", "remove", "delitem", "delitem_idx",
+HdMutators == {"set", "setitem", "add", "extend", "update", "ior", "remove", "delitem", "delitem_idx", "delitem_slice", "setitem_slice",
                "setitem_idx", "pop", "pop_idx", "pop_last", "popitem", "setlist", "setdefault",
                "setlistdefault", "clear"}
 
